@@ -44,17 +44,27 @@ def run(ctx, res):
         evs = [e for e in p.events if e.kind == "call"]
         enc = [e for e in evs if e.a == "mtbl_varint_encode64"]
         wr = [e for e in evs if e.a == "_write_all"]
-        good = len(enc) == 1 and len(wr) == 3 and canon(call_args(enc[0].node)[1]) == "b->len_data"
+        # decided on the values that reach the calls (not on how the arguments are spelled: a table of parts, locals, ...)
+        good = len(enc) == 1 and len(wr) == 3 and len(enc[0].b) >= 2 and strip_tags(APE.vstr(enc[0].b[1])) == "b->len_data"
         if good:
-            a0, a1, a2 = [call_args(x.node) for x in wr]
-            good = canon(a0[1]) == canon(call_args(enc[0].node)[0]) and wr[0].b[2] == enc[0].c and \
-                canon(a1[1]) == "&b->crc" and wr[1].b[2] == ("c", 4) and canon(a2[1]) == "b->data" and canon(a2[2]) == "b->len_data" and \
+            good = wr[0].b[1] == enc[0].b[0] and wr[0].b[2] == enc[0].c and \
+                strip_tags(APE.vstr(wr[1].b[1])) == "&b->crc" and wr[1].b[2] == ("c", 4) and \
+                strip_tags(APE.vstr(wr[2].b[1])) == "b->data" and wr[2].b[2] == enc[0].b[1] and \
                 all(w.b[0] == ("s", wb.params[0]["name"]) for w in wr)
         res.check(good, "C09.R1", site(wb, "frame"), "framed block = varint64 stored length, 4-byte CRC, stored bytes, in that order to the same descriptor",
                   "block framing is written as %s" % [[APE.vstr(x) for x in w.b] for w in wr], wb.loc(wb.body), p.describe(wb))
         r = p.ret()
-        want = "((%s+#4)+%s)" % (APE.vstr(enc[0].c), APE.vstr(wr[2].b[2])) if good else None
-        res.check(good and APE.vstr(r) == want, "C09.R1", site(wb, "bytes-written"), "returned size = length prefix + 4 + stored bytes",
+        sumok = False
+        if good and r is not None:
+            tot, c0 = {}, 0
+            for w in wr:
+                t_, c_ = linsum(APE.vstr(w.b[2]), tags=True)
+                c0 += c_
+                for k_, v_ in t_.items():
+                    tot[k_] = tot.get(k_, 0) + v_
+            tr, cr = linsum(APE.vstr(r), tags=True)
+            sumok = (tr, cr) == ({k_: v_ for k_, v_ in tot.items() if v_}, c0)
+        res.check(sumok, "C09.R1", site(wb, "bytes-written"), "returned size = length prefix + 4 + stored bytes",
                   "returned size %s is not the sum of the three parts written" % (APE.vstr(r) if r else None), wb.loc(wb.body))
     # the CRC field is little-endian on the wire: stored through htole32 at both definition sites
     crc_defs = []
@@ -223,10 +233,16 @@ def run(ctx, res):
               "pending_offset changes only at init, per data block and for the index block", "pending_offset is also changed by %s" % sorted(writers))
 
     # ---- R6 separator never drops below the block's last key ----------------------------------------
-    res.floor("C09.R6", 2)
+    res.floor("C09.R6", 12)
     sepf = prog.need("bytes_shortest_separator", W)
     res.saw(sepf)
     evs_ = APE.run(prog, cg, sepf, bound=APE.BOUND)
+    sep0 = "ubuf_data(%s)" % sepf.params[0]["name"]
+
+    def sep_addr(v):
+        # an address inside the separator's bytes, however it is formed: &data[i] or data + i
+        s_ = APE.vstr(v)
+        return s_.startswith("&" + sep0) or any(t_.startswith(sep0) for t_ in linsum(s_, tags=True)[0])
     nmod = 0
     for p in evs_.paths:
         if p.end != "exit":
@@ -237,7 +253,7 @@ def run(ctx, res):
             if e.kind == "store" and e.a.isidentifier():
                 locs[e.a] = e.b
             mods = []
-            if e.kind == "call" and e.a == "memcpy" and APE.vstr(e.b[1]).startswith("&ubuf_data(%s)" % sepf.params[0]["name"]) and 0 in e.outs:
+            if e.kind == "call" and e.a == "memcpy" and sep_addr(e.b[1]) and 0 in e.outs:
                 wide[APE.vstr(e.outs[0])] = (APE.vstr(e.b[1]), APE.vstr(e.b[2]))
             # a value derived from a wider read must be written back whole, at the place it was read from
             if e.kind == "store" and e.a.startswith("ubuf_data(%s)" % sepf.params[0]["name"]):
@@ -246,7 +262,7 @@ def run(ctx, res):
                         res.bad("C09.R6", site(sepf, "partial-write-back"),
                                 "a value computed from a %s-byte read of the separator is stored back into a single byte: the carry into the other byte(s) is lost and "
                                 "the index key can sort below the block's last key" % size.lstrip("#"), sepf.loc(e.node), p.describe(sepf))
-            if e.kind == "call" and e.a == "memcpy" and APE.vstr(e.b[0]).startswith("&ubuf_data(%s)" % sepf.params[0]["name"]):
+            if e.kind == "call" and e.a == "memcpy" and sep_addr(e.b[0]):
                 src = APE.vstr(e.b[1])
                 val = APE.vstr(locs.get(src[1:], ("s", src))) if src.startswith("&") else src
                 for sym, (addr, size) in wide.items():
@@ -257,7 +273,7 @@ def run(ctx, res):
                                   sepf.loc(e.node), p.describe(sepf))
             if e.kind == "store" and e.a.startswith("ubuf_data(%s)" % sepf.params[0]["name"]):
                 mods.append(APE.vstr(e.b))
-            if e.kind == "call" and e.a == "memcpy" and APE.vstr(e.b[0]).startswith("&ubuf_data(%s)" % sepf.params[0]["name"]):
+            if e.kind == "call" and e.a == "memcpy" and sep_addr(e.b[0]):
                 src = APE.vstr(e.b[1])
                 if src.startswith("&") and src[1:] in locs:
                     mods.append(APE.vstr(locs[src[1:]]))
